@@ -27,6 +27,14 @@ def configs(tier):
             for cell in ("reference", "unit"):
                 out.append(dict(rule="gauss", dim=dim, order=order, cell=cell))
         out.append(dict(rule="corners", dim=dim))
+    # call histories: the other variant (or the same rule, whose returned arrays the caller then scales in
+    # place) was requested earlier in the same process
+    for dim in (1, 2, 3):
+        for order in ([0, 1, "max"] if tier == "quick" else [0, 1, 2, 3, 4, "max"]):
+            for cell in ("reference", "unit"):
+                for after in ("other_variant", "same_rule_result_scaled"):
+                    out.append(dict(rule="gauss", dim=dim, order=order, cell=cell, after=after))
+        out.append(dict(rule="corners", dim=dim, after="same_rule_result_scaled"))
     return out
 
 
@@ -49,6 +57,19 @@ def body(cfg):
 
     q = darsia.quadrature
     dim = cfg["dim"]
+    if cfg.get("after"):
+        try:
+            if cfg["rule"] == "corners":
+                p0, w0 = q.reference_cell_corners(dim)
+            elif cfg["after"] == "other_variant":
+                p0, w0 = (q.gauss_reference_cell if cfg["cell"] == "reference" else q.gauss)(dim, cfg["order"])
+            else:
+                p0, w0 = (q.gauss if cfg["cell"] == "reference" else q.gauss_reference_cell)(dim, cfg["order"])
+            if cfg["after"] == "same_rule_result_scaled":
+                w0 *= 3  # what a caller may do with the arrays it was handed
+                p0 += 1
+        except NotImplementedError:
+            pass
     if cfg["rule"] == "corners":
         pts, w = q.reference_cell_corners(dim)
         lo, hi, deg = 0, 1, 1
